@@ -90,7 +90,7 @@ def check_state(H, tc, true, n, w, thr, witness, site):
           'assert sorted(tc.most_common()) == sorted(tc.items()), tc.most_common()\n' % (thr, witness))
     elif any(mc[i][1] < mc[i + 1][1] for i in range(len(mc) - 1)):
         F('most_common_sorted', 'n omitted', repr(mc))
-    for nn in (1, 2, len(items) + 1):
+    for nn in (0, 1, 2, len(items) + 1):
         m = tc.most_common(nn)
         exp_counts = sorted(d.values(), reverse=True)[:nn]
         if [c for _, c in m] != exp_counts or any(d.get(k) != c for k, c in m) or len(set(k for k, _ in m)) != len(m):
